@@ -120,7 +120,7 @@ def run_case(args):
 
 def run(tier, seed, replay_file=None):
     o = Outcome(PID, tier, seed)
-    N = 6 if tier == "quick" else 16
+    N = 6 if tier == "quick" else 20
     o.rule = (f"Series: n in 1..{N} x 7 unit cells x every ordered pair of distinct signal ports x given by name / by Signal; MosStack n in 1..{N}; Wrapper of "
               "every unit; non-trivial = n >= 2 or Wrapper; distinct by case. Exhaustive over that family.")
     o.trusted_base = ["harness/props/c19.py driver", "harness/design.py", "TLC"]
@@ -133,7 +133,7 @@ def run(tier, seed, replay_file=None):
             for a, b in itertools.permutations([p for p, w in ports], 2):
                 for n in range(1, N + 1):
                     for by in ("name", "signal"):
-                        if by == "signal" and n not in (1, 2, 3, N):
+                        if by == "signal" and n not in (1, 2, 3, N) and tier == "quick":
                             continue
                         cases.append({"kind": "series", "unit": uname, "a": a, "b": b, "n": n, "by": by})
         for n in range(1, N + 1):
